@@ -248,6 +248,28 @@ def tlc(module, cfg, workers=None, timeout=900, env=None, extra=None, xmx="4g", 
     return TlcResult(rc, out, time.time() - t0)
 
 
+def apalache(module, cinit, init, inv, length, timeout=600):
+    """One proof obligation with Apalache (symbolic, unbounded integers): returns (ok, violated, wall, tail).
+    ok = no error up to `length` steps from `init`; violated = a counterexample was produced (exit 12)."""
+    _tlc_seq[0] += 1
+    out = os.path.join(WORK, "apalache", "%d-%d" % (os.getpid(), _tlc_seq[0]))
+    shutil.rmtree(out, ignore_errors=True)
+    os.makedirs(out, exist_ok=True)
+    cmd = ["apalache-mc", "check", "--out-dir=" + out, "--cinit=" + cinit, "--init=" + init, "--inv=" + inv, "--length=%d" % length,
+           module if module.endswith(".tla") else module + ".tla"]
+    t0 = time.time()
+    try:
+        p = subprocess.run(cmd, cwd=SPEC, timeout=timeout, stdout=subprocess.PIPE, stderr=subprocess.STDOUT)
+        rc, txt = p.returncode, p.stdout.decode("utf-8", "replace")
+    except subprocess.TimeoutExpired as ex:
+        rc, txt = 124, (ex.stdout or b"").decode("utf-8", "replace") + "\nTIMEOUT"
+    except FileNotFoundError:
+        raise Broken("apalache-mc is not installed")
+    shutil.rmtree(out, ignore_errors=True)
+    ok = rc == 0 and "The outcome is: NoError" in txt
+    return ok, rc == 12, time.time() - t0, txt[-2000:]
+
+
 def tlc_exhaustive(module, cfg, **kw):
     """Exhaustive check that must pass. Violation of the model itself = broken check."""
     r = tlc(module, cfg, **kw)
@@ -516,6 +538,20 @@ class Check:
         self.stage("tlc-asfound:" + cfg, t0, violated=r.violated_what() or ("rc=%d" % r.rc))
         self.extra.setdefault("anti_vacuity", []).append({"cfg": cfg, "result": r.violated_what() or ("rc=%d" % r.rc)})
         return r
+
+    def prove(self, module, cinit, init, inv, length, must_fail=False):
+        """An Apalache obligation that must hold (or, must_fail, must produce a counterexample: anti-vacuity)."""
+        ok, viol, wall, tail = apalache(module, cinit, init, inv, length)
+        if must_fail:
+            if not viol:
+                raise Broken("Apalache obligation %s/%s=>%s was expected to fail but did not:\n%s" % (module, init, inv, tail))
+        elif not ok:
+            raise Broken("Apalache obligation %s/%s=>%s did not hold:\n%s" % (module, init, inv, tail))
+        d = {"stage": "apalache:%s(%s, %s => %s, %d step%s)%s" % (module, cinit, init, inv, length, "" if length == 1 else "s", " must fail" if must_fail else ""),
+             "wall_s": round(wall, 2)}
+        self.stages.append(d)
+        self.extra.setdefault("inductive_invariant", []).append(d["stage"])
+        log("[%s] %s %.1fs" % (self.prop, d["stage"], wall))
 
     def violation(self, diag, replay_src=None, replay_text=None):
         """Classify a mismatch: known finding or violation."""
